@@ -197,7 +197,7 @@ def build():
     U.raw(C.VALUE_SPECS + C.TRUTHY_SPEC + SPECS, 'spec functions')
     U.raw(C.TRAIT_FULL + TRAIT, 'plumbing')
     U.raw(C.STD_SPECS, 'assumed std specs')
-    U.raw(C.AXIOMS.replace('ax::axiom_vec_celvalue_len};', 'ax::axiom_vec_celvalue_len, ax2::axiom_vec_into_cel_id};'), 'axioms')
+    U.raw(C.AXIOMS.replace('ax::axiom_vec_bytecode_len};', 'ax::axiom_vec_bytecode_len, ax2::axiom_vec_into_cel_id};'), 'axioms')
     U.extract(C.CE, 'impl CelError', fns={
         'argument': A(ret='r', ensures=[('kind', 'r is Argument')], props=('C01',)),
         'value': A(ret='r', ensures=[('kind', 'r is Value')], props=('C01',)),
